@@ -705,7 +705,7 @@ func (fv *FuncVerifier) builtin(st *State, b *ssa.Builtin, cc *ssa.CallCommon, a
 			fv.guardAccess(st, cc.Args[0], true, pos)
 			if b.Name() == "delete" && len(args) == 2 {
 				if key, kok := fv.enc.mapKey(args[1]); kok {
-					fv.mapSetKey(st, cc.Args[0], key, false)
+					fv.mapSetKey(st, cc.Args[0], key, false, nil)
 					return Value{}
 				}
 			}
@@ -991,5 +991,5 @@ func (fv *FuncVerifier) invEnv(st *State, li *loopInfo) *Env {
 			vars["rangepos"] = intVal(p)
 		}
 	}
-	return &Env{fv: fv, enc: fv.enc, st: st, old: fv.pre, vars: vars, oldVars: oldVars, pkg: fv.pkgOf(), nb: &fv.enc.nfresh}
+	return &Env{fv: fv, enc: fv.enc, st: st, old: fv.pre, vars: vars, oldVars: oldVars, pkg: fv.pkgOf(), nb: &fv.enc.nfresh, loopEntry: li.entry}
 }
